@@ -17,15 +17,19 @@ child is rejected whatever the replay order, the parent value is not touched; `m
 accepted and the parent takes over the child's root and content); a merge is a sequence of `insertNode`/`deleteNode`
 events on the parent (`merge_is_events`), so the collector algebra and `C04_complete_partial` cover rounds with merges.
 
-NOT proved: that after an accepted merge the parent's root resolves in the parent's layered store (`MergeResolves`).
+Publication into the store: `view_resolves` (a trie's own view resolves in its layered store, closed form) and
+`merge_resolves_partial` (after an accepted merge the parent's root resolves in the parent's layered store, under the
+event discipline of the parent's event list); the unconditional statement is the `def MergeResolves`.
 Before fix 8b1f6ed it was false of the code for some replay orders (corpus/C03/fixed_merge_order.ops); `mergeChanges`
 now replays the changes in the order computed by `orderChanges`, which the model contains literally.
 -/
 import Verif.Lemmas.MptStoreEvents
 import Verif.Lemmas.MptStoreTrie
 import Verif.Gen.AppendFacts
+import Verif.Lemmas.LevelStore
+import Verif.Lemmas.MptRound
 namespace Verif.Props.C03
-open Verif.Mpt Verif.MptStore
+open Verif.Mpt Verif.MptStore Verif.MptStore.Collector
 
 /-- A trie's content after `Insert` is the structural trie's `insert` of its content (C01 applies to it). -/
 theorem trie_insert_tree (H : Bytes → Bytes) (t : Trie) (p : List Nib) (b : Bytes) :
@@ -130,10 +134,67 @@ example :
     · simp [p2, p, c, Trie.open, Verif.MptStore.Trie.insert, Trie.applyEvents, insertE, Trie.applyEvent, Trie.insertNode, Collector.addChange, Verif.Mpt.root, key]
     · simp [p2, p, c, Trie.open, Verif.MptStore.Trie.insert, Verif.Mpt.root, key, insertE, le64]
 
+/-- **A trie's view resolves in its layered store** (closed form for a sequence of own inserts/deletes): a trie opened
+    with an empty level over stores `below` in which its start tree resolves, after any round of its own operations,
+    reads its current tree completely through (own level, then `below`).  The event discipline is proved
+    (Lemmas/EventDisc, EventKeys); assumed: canonical start tree and key injectivity on the references involved. -/
+theorem view_resolves (H : Bytes → Bytes) (below : Bytes → Option Bytes) (t0 t : Node) (b0 : Trie) (v : Nat) (es : List Event)
+    (hfresh : b0.cc.changes = [] ∧ b0.cc.deletes = []) (hcur : b0.db.current = [])
+    (h0 : Resolves H below t0 []) (hw : WF t0) (hr : RoundEvents v t0 es t)
+    (hU : KeyInjOn H (fun r => r ∈ refs t0 [] ∨ r ∈ eventRefs es)) :
+    Resolves H (levelGet (b0.applyEvents H es) below) t [] := by
+  obtain ⟨hd, hc, _⟩ := round_discipline H hr hw hU
+  obtain ⟨_, hcr, _⟩ := round_ok hr hw (fun r => r ∈ refs t0 []) (fun _ h => h)
+  have hsub : ∀ r ∈ refs t [], r ∈ refs t0 [] ∨ r ∈ eventRefs es := fun r h => liveRunR_sub es _ r (hcr r h)
+  apply level_resolves_partial H below t0 t b0 es hfresh hcur h0 hd hc
+  intro a b ha hb hk
+  have haU : a ∈ refs t0 [] ∨ a ∈ eventRefs es := by
+    rcases ha with ha | ha | ha
+    · exact Or.inl ha
+    · exact hsub a ha
+    · exact Or.inr ha
+  have hbU : b ∈ refs t0 [] ∨ b ∈ eventRefs es := by
+    rcases hb with hb | hb | hb
+    · exact Or.inl hb
+    · exact hsub b hb
+    · exact Or.inr hb
+  rw [hU a b haU hbU hk]
+
+/-- **Merge publishes into the parent's store** (partial: under the event discipline for the parent's whole event
+    list).  The parent `p0.applyEvents esP` (opened with an empty level over `below`, where its start tree `t0`
+    resolves) accepts the up-to-date child `c`; if the parent's events so far followed by the merge's events
+    `mergeEvents (orderChanges changes) deletes` obey the discipline w.r.t. `t0` and cover the child's tree, then the
+    parent's new root resolves in the parent's layered store (own level, then `below`). -/
+theorem merge_resolves_partial (H : Bytes → Bytes) (below : Bytes → Option Bytes) (t0 : Node) (p0 c : Trie)
+    (esP : List Event) (changes : List (Change Ref))
+    (hfresh : p0.cc.changes = [] ∧ p0.cc.deletes = []) (hcur : p0.db.current = [])
+    (h0 : Resolves H below t0 [])
+    (hup : (p0.applyEvents H esP).root = c.cc.startRoot) (hne : (p0.applyEvents H esP).root ≠ c.root)
+    (hdisc : Disc (Ref.key H) (fun x => x ∈ (refs t0 []).map (Ref.key H))
+      (callsOf H (esP ++ mergeEvents (orderChanges H changes) c.cc.getDeletes)))
+    (hcov : ∀ r ∈ refs c.tree [], Collector.liveRun (Ref.key H) (fun x => x ∈ (refs t0 []).map (Ref.key H))
+      (callsOf H (esP ++ mergeEvents (orderChanges H changes) c.cc.getDeletes)) (r.key H))
+    (hf : Faithful H (fun r => r ∈ refs t0 [] ∨ r ∈ refs c.tree [] ∨
+      r ∈ eventRefs (esP ++ mergeEvents (orderChanges H changes) c.cc.getDeletes))) :
+    ∃ p', mergeMPTChangesOrd H (p0.applyEvents H esP) c changes = .ok p' ∧
+      Resolves H (levelGet p' below) p'.tree [] := by
+  obtain ⟨p', hm, _, htree, _, _, hdb⟩ := merge_fresh H (p0.applyEvents H esP) c changes hup hne
+  refine ⟨p', hm, ?_⟩
+  have happ : (p0.applyEvents H esP).applyEvents H (mergeEvents (orderChanges H changes) c.cc.getDeletes)
+      = p0.applyEvents H (esP ++ mergeEvents (orderChanges H changes) c.cc.getDeletes) := by
+    simp [Trie.applyEvents, List.foldl_append]
+  have hlevel : levelGet p' below = levelGet (p0.applyEvents H (esP ++ mergeEvents (orderChanges H changes) c.cc.getDeletes)) below := by
+    funext k
+    simp only [levelGet, hdb, happ]
+  rw [hlevel, htree]
+  exact level_resolves_partial H below t0 c.tree p0 _ hfresh hcur h0 hdisc hcov hf
+
 /-- The full publication statement: after an accepted merge of a child whose own view resolved, the parent's new root
     resolves in the parent's layered store (`get` = read-through of the parent's level and everything below it).
-    NOT proved.  (Without `orderChanges` it is false: corpus/C03/fixed_merge_order.ops, the parent's store lost a live
-    node when a re-creation was replayed before the replacement of the same key.) -/
+    Proved as `merge_resolves_partial` under the event discipline of the parent's whole event list (own operations and
+    merge replays); the discipline itself is proved for a trie's own operations (`view_resolves`), not yet for the
+    replay of a child's collector.  (Without `orderChanges` it is false: corpus/C03/fixed_merge_order.ops, the parent's
+    store lost a live node when a re-creation was replayed before the replacement of the same key.) -/
 def MergeResolves : Prop :=
   ∀ (H : Bytes → Bytes) (below : Bytes → Option Bytes) (p c p' : Trie) (changes : List (Change Ref)),
     changes.Perm c.cc.getChanges →
